@@ -4,6 +4,7 @@
     arbitrary solution vector r and hydrogen-nuclei total Hn. *)
 From Coq Require Import List Arith Bool ZArith QArith Reals Qreals Lra.
 From Naunet Require Import Lib.ListX Model.Renorm Proofs.RenormProofs.
+From NaunetGen Require Import Tables.
 Import ListNotations.
 Open Scope R_scope.
 
@@ -98,3 +99,12 @@ Theorem sums_of_quotients_parse : forall sp x ms, lit_ok x -> Forall (fun m => l
   parse (gsum_txt sp x ms) = Some (gsum_ex x ms).
 Proof. exact parse_gsum. Qed.
 Print Assumptions sums_of_quotients_parse.
+
+(* tie to the current /repo (read from the source with ast on every run): the two f-strings of _prepare_renorm_content - the
+   matrix term  (ci*cj*w_j) * ab[IDX_k] / w_k / Hnuclei  and the factor term  (c*w_j) * rptr[IDX_ELEM_j] / w_k  of Model/RenormText *)
+From Coq Require Import String.
+Theorem live_renorm_text_pieces : renorm_content_fstrings =
+  ["{ci * cj * weight(elements[jele])} * ab[IDX_{spec.alias}] / {weight(spec)} / Hnuclei";
+   "{c * weight(elem)} * rptr[IDX_ELEM_{ename}] / {weight(spec)}"]%string.
+Proof. reflexivity. Qed.
+Print Assumptions live_renorm_text_pieces.
